@@ -249,7 +249,61 @@ func HarnessC16Seq(n int) {
 	verifrt.Cover("end", true)
 }
 
+// HarnessC15Reuse: a client disconnects with a request in flight on a backend connection; a new client
+// connects (the kernel hands it the freed descriptor number) and sends a request that goes to the same
+// backend connection - before or after the poller has run its tasks; then that backend connection is
+// lost (EOF read, or noticed by the next write). Every request of the new client is answered (with an
+// error) or the client is closed; nobody waits forever.
+func HarnessC15Reuse(quiet int) {
+	w, _ := verifWorld2(core.VerifDefaultOptions())
+	a := w.NewClient("10.0.0.1:5000")
+	k := []byte{'{', 'b', '}', '0', verifrt.Byte("key")}
+	w.Feed(a, core.VerifEncode([]byte("get"), k))
+	w.RunTasks()
+	verifrt.Assert(len(w.ByAddr["A:1"]) == 1, "one_backend_connection")
+	s := w.ByAddr["A:1"][0]
+	w.HangUp(a)
+	verifrt.Assert(!a.Opened(), "harness_first_client_closed")
+	b := w.NewClient("10.0.0.2:5000")
+	verifrt.Assert(b.Fd == a.Fd, "harness_descriptor_number_reused")
+	nb := 1 + verifrt.Choice("second_request", 2)
+	for i := 0; i < nb; i++ {
+		w.Feed(b, core.VerifEncode([]byte("get"), []byte{'{', 'b', '}', byte('1' + i), 'x'}))
+	}
+	if verifrt.Choice("tasks_run_before_the_loss", 2) == 1 {
+		w.RunTasks()
+	}
+	if quiet == 1 {
+		w.CloseQuiet(s)
+		w.RunTasks()
+		w.Readable(s)
+	} else {
+		w.HangUp(s)
+	}
+	w.RunTasks()
+	replies, rest := splitReplies(w.Sent(b))
+	verifrt.ObserveBytes("client", w.Sent(b))
+	answered := len(replies) == nb && len(rest) == 0
+	// (the proxy may also have re-sent nothing and dialled a new connection for requests not yet written)
+	for _, s2 := range w.ByAddr["A:1"] {
+		if s2 != s && s2.Opened() {
+			_, got := core.VerifRedisParse(w.Sent(s2))
+			var rsp []byte
+			for _, g := range got {
+				rsp = append(rsp, replyFor(g)...)
+			}
+			w.Feed(s2, rsp)
+		}
+	}
+	replies, rest = splitReplies(w.Sent(b))
+	answered = len(replies) == nb && len(rest) == 0
+	verifrt.Assert(answered || !b.Opened(), "C15_every_request_answered_or_client_closed")
+	verifrt.Assert(!w.Shutdown, "proxy_keeps_running")
+	verifrt.Cover("end", true)
+}
+
 func init() {
+	verifrt.Register("HarnessC15Reuse", func(p []int64) { HarnessC15Reuse(int(p[0])) })
 	verifrt.Register("HarnessC16Seq", func(p []int64) { HarnessC16Seq(int(p[0])) })
 	verifrt.Register("HarnessC13Seq", func(p []int64) { HarnessC13Seq(int(p[0]), int(p[1])) })
 	verifrt.Register("HarnessC13", func(p []int64) { HarnessC13(int(p[0]), int(p[1])) })
